@@ -54,6 +54,7 @@ ROOT_CONFIGS = [(("Log",), False), (("Lin",), False), (("Log", "Lin"), False), (
 DEFAULT_RUNS = ("root|Log|rp=0", "solve|Log+Lin|rp=0")
 PRECIP_LATTICE = [0.0, 0.5, 1.0, 2.0, 3.0]
 KSPS = [4.0, 1.0]
+PRECIP_OPTIONS = {"default": None, "rrefp+tol": dict(rref_preserv=True, tol=1e-12), "rrefe": dict(rref_equil=True)}
 ORIENTATIONS = ["dissolution", "precipitation"]  # NaCl(s) = Na+ + Cl- ; K = Ksp   |   Na+ + Cl- = NaCl(s) ; K = 1/Ksp
 
 
@@ -61,7 +62,7 @@ def systems(tier):
     """(tags, lattice, kshift-mode) in order simplest first"""
     q = tier == "quick"
     out = [(("water",), L5, "none")]
-    singles = ["nh4", "hac", "cunh3", "cr2o7"] + ([] if q else ["agnh3", "h2co3", "hco3"])
+    singles = ["nh4", "hac", "cunh3", "cr2o7", "agnh3d"] + ([] if q else ["agnh3", "h2co3", "hco3"])
     out += [((t,), L3 if q else L5, "full") for t in singles]
     pairs = ["nh4", "hac", "h2co3", "hco3", "cr2o7"]
     out += [(("water", t), L3 if q else L4, "full") for t in pairs]
@@ -98,7 +99,7 @@ def bounds(tier):
         systems=[dict(system=list(t), lattice=l, K_shifts=len(kshifts(t, m))) for t, l, m in systems(tier)],
         H2O=H2O, root_configs=["%s rref_preserv=%s" % ("+".join(c), rp) for c, rp in ROOT_CONFIGS], solve="default chain, varied grid",
         brentq="single-equilibrium systems", precipitation=dict(lattice=PRECIP_LATTICE, Ksp=KSPS, written_as=ORIENTATIONS, chains=["+".join(c) for c in CHAINS],
-                                                               options=["default", "rref_preserv=True, tol=1e-12"], solve="default chain, single points"),
+                                                               options=["default", "rref_preserv=True, tol=1e-12", "rref_equil=True"], solve="default chain, single points"),
         rtol=RTOL, solid_absent=SOLID_ABSENT, liveness="per chunk, default chains, >= 19/20",
     )
 
@@ -420,7 +421,7 @@ def run_chunk(chunk, tier):
             for v in set(init):
                 res.symbols["precip-conc:%g" % v] += 1
             for chain in CHAINS:
-                for oname, extra in (("default", None), ("rrefp+tol", dict(rref_preserv=True, tol=1e-12))):
+                for oname, extra in sorted(PRECIP_OPTIONS.items()):
                     res.transitions += 1
                     claimed |= precip_run(res, es, names, init, chain, oname, extra, "root", orient, ksp)
             res.transitions += 1
@@ -473,7 +474,7 @@ def replay(case):
         vs = [v for v in r.violations if v["case"].get("layer") == "live" and v["case"].get("run") == case["run"]]
     elif case.get("layer") == "P":
         es, names = build_precip(case["orient"], case["ksp"])
-        extra = None if case["options"] == "default" else dict(rref_preserv=True, tol=1e-12)
+        extra = PRECIP_OPTIONS[case["options"]]
         precip_run(res, es, names, case["init"], tuple(case["chain"]), case["options"], extra, case.get("entry", "root"), case["orient"], case["ksp"])
         vs = res.violations
     else:
